@@ -57,6 +57,7 @@ def compute(prog, rep):
             ("call", G("numpy.ones"), (("bin", "*", ("tuple", (("const", 3),)), nd),), (("dtype", G("bool")),)),
             ("call", G("numpy.ones"), (("bin", "*", ("tuple", (("const", 3),)), nd),), ()),
             ("call", G("numpy.ones"), (("call", G("tuple"), (("bin", "*", ("list", (("const", 3),)), nd),), ()),), ())]
+    full.append(("call", G("scipy.ndimage.generate_binary_structure"), (nd, nd), ()))
     s_e, s_l = (be or {}).get("structure"), (bl or {}).get("structure")
     rep.check(s_e is not None and s_e == s_l, "C15.struct", f"{q}:same-structure", fn.where(er[0]), "erosion and labelling use the same structuring element",
               f"binary_erosion and label must use the SAME structuring element (neighbourhood): erosion {show(s_e)[:80] if s_e else None} vs label {show(s_l)[:80] if s_l else None}")
